@@ -23,11 +23,11 @@
 // meant to scale (scale_width = false under a factor != 1) are compared on their centre lines (element_center),
 // RobustPaths with more than one sub-path on spine positions, labels on their origins, references on get_polygons.
 // finding keys (P FAIL <key>):
-//   FlexPath::transform:x_reflection+offset        F7  offsets not negated under x_reflection
-//   FlexPath::transform:negative-magnification     F7  offsets / half widths / extensions multiplied by the signed magnification
+//   FlexPath::transform:x_reflection+offset        F7 (fixed df9071a)  offsets not negated under x_reflection
+//   FlexPath::transform:negative-magnification     F7 (fixed df9071a)  offsets / half widths / extensions multiplied by the signed magnification
 //   element-transform:repetition-ignored           F8  the attached repetition is not transformed
-//   FlexPath::scale:negative-factor+end_extensions     end_extensions multiplied by the signed factor (extended ends retract)
-//   RobustPath::scale:negative-factor+end_extensions   the same in RobustPath::simple_scale (scale and transform)
+//   FlexPath::scale:negative-factor+end_extensions     (fixed a1ca73a) end_extensions multiplied by the signed factor (extended ends retract)
+//   RobustPath::scale:negative-factor+end_extensions   (fixed a1ca73a) the same in RobustPath::simple_scale (scale and transform)
 //   <Kind>::<call|sequence>:outline-mismatch       anything else (none on the current tree)
 #include <algorithm>
 #include <cmath>
@@ -884,10 +884,9 @@ int main(int argc, char** argv) {
         return 0;
     }
     for (auto& kp : load_corpus(argc > 4 ? argv[4] : NULL)) run_case(out, kp.first, kp.second);
-    // common.hpp's Rng gives consecutive seeds the same stream shifted by one draw: spread the seeds out
-    Rng g_(seed * 0x100000001B3ULL + 12345);
+    Rng g_(seed);
 
-    // the two probes behind F7 and the one behind F8 first
+    // the two probes behind F7 (fixed) and the one behind F8 first
     {
         std::string path = "F 1 2 " + DV(0, 0) + " " + DV(10, 0) + " 1 0 " + DV(0, 0) + " " + DV(0.5, 2) + " " + DV(0.5, 2);
         run_case(out, "seq", path + " N 1 T " + D(1) + " 1 1 0 1 " + DV(0, 0));
